@@ -359,6 +359,16 @@ def run_columns(ctx, cases, tag, procs):
         # form of the same column decodes to the same values
         pred = (not dom) or (r['dec_vals'] == list(vals) and r['unc_vals'] == list(vals)
                              and r['dec'].endswith(' %d' % r['nbits']))
+        # code/flag: a value equal to the element's all-ones pattern IS the missing value;
+        # both storage forms must read it so
+        if (kind == 'cf' and (dn is None or dn == w) and 2 <= w <= 64 and vals
+                and all(v is None or 0 <= v <= 2 ** w - 1 for v in vals) and any(v == 2 ** w - 1 for v in vals)
+                and min(present(vals)) < 2 ** w - 1     # an all-ones BASE is refused by the decoder (notes/C05.md)
+                and max(present(vals)) - min(present(vals)) + 2 < 2 ** 63):
+            expect_cf = [None if v == 2 ** w - 1 else v for v in vals]
+            ctx.dist['cf:explicit-all-ones-value'] += 1
+            if not (r['dec_vals'] == expect_cf and r['unc_vals'] == expect_cf):
+                pred = False
         onebit = (w == 1 and has_missing)
         if not pred:
             if onebit:
@@ -518,7 +528,7 @@ def run_scaled_equal(ctx):
 def run_streams(ctx, procs):
     rng = ctx.rng
     cases, lines = [], []
-    for _ in range(ctx.n(1500, 8000)):
+    for _ in range(ctx.n(1500, 30000)):
         kind = rng.choice(['num', 'num', 'cf', 'str'])
         n = rng.choice([0, 1, 2, 3, 5, 9])
         if kind == 'str':
@@ -609,7 +619,7 @@ def run_strings(ctx, procs, corpus_cols=()):
             for col in combos:
                 cols.append((nb, list(col)))
     # random: widths up to 64 octets (64 does not fit the 6-bit field), up to 40 subsets
-    for _ in range(ctx.n(600, 5000)):
+    for _ in range(ctx.n(600, 20000)):
         nb = rng.choice([1, 2, 4, 8, 20, 32, 63, 64, 65]) if rng.random() < 0.5 else rng.randrange(0, 24)
         n = rng.choice([1, 2, 3, 4, 7, 19, 40]) if rng.random() < 0.6 else rng.randrange(1, 41)
         style = rng.choice(['different', 'equal', 'equal-nul', 'equal-ff', 'allmissing', 'mixed'])
@@ -679,7 +689,7 @@ def run_strings(ctx, procs, corpus_cols=()):
 def run_refvals(ctx, procs):
     rng = ctx.rng
     cases = []
-    for _ in range(ctx.n(150, 2000)):
+    for _ in range(ctx.n(150, 6000)):
         w = rng.choice([2, 3, 8, 12, 16, 24, 33, 64, 65, 1, 0])
         n = rng.randrange(1, 6)
         m = 2 ** max(w - 1, 0)
@@ -774,7 +784,7 @@ def gen_e2e(ctx):
     rng = ctx.rng
     env()
     cases = []
-    for _ in range(ctx.n(300, 3000)):
+    for _ in range(ctx.n(300, 8000)):
         name, ids, slots = rng.choice(E2E_TEMPLATES)
         n = rng.choice([1, 2, 3, 4, 8, 20])
         if name == 'numeric-201':
@@ -888,14 +898,14 @@ def run(ctx):
         cases = gen_exhaustive(ctx, 'num', [1, 2, 3], 4, 6000, 0.05)
         cases += gen_exhaustive(ctx, 'cf', [1, 2, 3], 4, 4000, 0.05)
     else:
-        cases = gen_exhaustive(ctx, 'num', [1, 2, 3, 4], None, 0, 0.03)
-        cases += gen_exhaustive(ctx, 'cf', [1, 2, 3, 4], None, 0, 0.03)
+        cases = gen_exhaustive(ctx, 'num', [1, 2, 3, 4], None, 0, 0.15)
+        cases += gen_exhaustive(ctx, 'cf', [1, 2, 3, 4], None, 0, 0.15)
     run_columns(ctx, cases, 'exhaustive-core', procs)
     ctx.exhaustive = not ctx.quick
     ctx.extra['exhaustive_core'] = ('all columns of <=4 subsets over {missing,0..2^w-2}, w<=%d, numeric and code/flag: complete%s'
                                     % ((3, '; w=4: 6000+4000 sampled') if ctx.quick else (4, '')))
     # (b) random wide columns
-    run_columns(ctx, gen_random_num(ctx, ctx.n(2500, 20000)), 'random-wide', procs)
+    run_columns(ctx, gen_random_num(ctx, ctx.n(2500, 60000)), 'random-wide', procs)
     run_scaled_equal(ctx)
     # (c) strings
     run_strings(ctx, procs, str_cols_corpus)
